@@ -198,7 +198,7 @@ theorem opNew_covers (cur : Replica) (p row room ent val sig now : Nat) :
   rw [part_append, part_single_ne, List.append_nil]
   intro e; exact hk (by rw [← e]; rfl)
 
-theorem opUpd_covers {cur : Replica} (hn : IdsNodup cur) (rights : List Bool) (p row ent val sig : Nat)
+theorem opUpd_covers {cur : Replica} (hn : IdsNodup cur) (rights : Rights) (p row ent val sig : Nat)
     (room : Option Nat) (now : Nat) :
     Covers cur (opUpd rights cur cur p row ent val sig room now).cur (opUpd rights cur cur p row ent val sig room now).marks := by
   unfold opUpd
@@ -218,7 +218,7 @@ theorem opUpd_covers {cur : Replica} (hn : IdsNodup cur) (rights : List Bool) (p
       · exact hk.2
       · intro e; apply hk.1; rw [e]; simp [nKey, kNode, hent]
 
-theorem opRef_covers {cur : Replica} (hn : IdsNodup cur) (rights : List Bool) (p row to sig now : Nat) :
+theorem opRef_covers {cur : Replica} (hn : IdsNodup cur) (rights : Rights) (p row to sig now : Nat) :
     Covers cur (opRef rights cur cur p row to sig now).cur (opRef rights cur cur p row to sig now).marks := by
   unfold opRef
   split
@@ -242,7 +242,7 @@ theorem opRef_covers {cur : Replica} (hn : IdsNodup cur) (rights : List Bool) (p
           · intro e; apply hk.2.1; rw [e]; simp [nKey, kNode, hent]
 
 theorem opUnref_covers {cur : Replica} (hn : IdsNodup cur) {d : Defects} (hd : d.refDeletionUnmarked = false)
-    (rights : List Bool) (p row to sig dsig now : Nat) :
+    (rights : Rights) (p row to sig dsig now : Nat) :
     Covers cur (opUnref d rights cur cur p row to sig dsig now).cur
       (opUnref d rights cur cur p row to sig dsig now).marks := by
   unfold opUnref
@@ -277,7 +277,7 @@ theorem opUnref_covers {cur : Replica} (hn : IdsNodup cur) {d : Defects} (hd : d
           · intro e; apply hk.2.2; rw [e]; simp [nKey, kNode, hent]
           · intro e; apply hk.2.1; rw [e]; simp [nKey, kNode, hent]
 
-theorem opDel_covers {cur : Replica} (hn : IdsNodup cur) (rights : List Bool) (p row ent dsig now : Nat) :
+theorem opDel_covers {cur : Replica} (hn : IdsNodup cur) (rights : Rights) (p row ent dsig now : Nat) :
     Covers cur (opDel rights cur cur p row ent dsig now).cur (opDel rights cur cur p row ent dsig now).marks := by
   unfold opDel
   split
@@ -398,7 +398,7 @@ theorem putNode_covers {r : Replica} (hn : IdsNodup r) (n : Node) (l : Option No
 
 /-- **a synchronised row keeps the invariant** (intended marks: the day of the row and the day of the version it
     replaces), `old` being the version stored locally -/
-theorem ingestNode_winv {d : Defects} (hd : d.oldDayUnmarked = false) (rights : List Bool) {r : Replica}
+theorem ingestNode_winv {d : Defects} (hd : d.oldDayUnmarked = false) (rights : Rights) {r : Replica}
     (hn : IdsNodup r) (h : WInv r.sigs noPending r.log) (n : Node) (old : Option Node)
     (ho : r.findId n.id = old) (hent : ∀ o, old = some o → o.ent = n.ent) :
     WInv (ingestNode d rights r n old).sigs noPending (ingestNode d rights r n old).log := by
@@ -420,7 +420,7 @@ theorem ingestNode_winv {d : Defects} (hd : d.oldDayUnmarked = false) (rights : 
     exact winv_step' h hc rfl
   · exact h
 
-theorem ingestNode_idsNodup {d : Defects} (rights : List Bool) {r : Replica} (hn : IdsNodup r) (n : Node)
+theorem ingestNode_idsNodup {d : Defects} (rights : Rights) {r : Replica} (hn : IdsNodup r) (n : Node)
     (old : Option Node) : IdsNodup (ingestNode d rights r n old) := by
   unfold ingestNode
   split
@@ -451,7 +451,7 @@ theorem ingestNode_idsNodup {d : Defects} (rights : List Bool) {r : Replica} (hn
 
 /-- **a synchronised deletion record keeps the invariant** (intended: every version it removes has its day marked) -/
 theorem applyNTombs_winv {d : Defects} (h1 : d.syncDeletionLocalDayUnmarked = false)
-    (rights : List Bool) {dst : Replica} (h : WInv dst.sigs noPending dst.log) (ts : List NTomb) :
+    (rights : Rights) {dst : Replica} (h : WInv dst.sigs noPending dst.log) (ts : List NTomb) :
     WInv (applyNTombs d rights dst ts).sigs noPending (applyNTombs d rights dst ts).log := by
   unfold applyNTombs
   refine foldl_preserves' (fun r : Replica => WInv r.sigs noPending r.log) _ _ _ h ?_
